@@ -319,3 +319,20 @@ def no_mutable_inside(obj):
         from dataclasses import fields
         return all(no_mutable_inside(getattr(obj, f.name)) for f in fields(obj))
     return True
+
+
+def obj_ident(v):
+    """Typed canonical identity computed from a realised object (same shape as ident())."""
+    from dataclasses import fields
+    from enum import Enum
+    if hasattr(type(v), '_lt') and hasattr(v, '_is_task'):
+        return ['task', type(v).__module__, type(v).__qualname__] + [obj_ident(getattr(v, f.name)) for f in fields(v)]
+    if isinstance(v, Enum):
+        return ['enum', type(v).__module__, type(v).__qualname__, v.name]
+    if isinstance(v, (list, tuple)):
+        return ['seq', [obj_ident(x) for x in v]]
+    if hasattr(v, 'items'):
+        return ['map', [[k, obj_ident(x)] for k, x in v.items()]]
+    if isinstance(v, float):
+        return ['float', repr(v)]
+    return [type(v).__name__, v]
